@@ -59,6 +59,7 @@ class Stream:
     exhaustive: bool = False  # enumeration covers its finite space completely
     custom: Callable[[str, int, Any], dict] | None = None  # (tier, seed, ctx) -> shard-like result
     shards: int | None = None
+    per_shard_min: int = 50  # fewer cases than this per shard are not worth a process
     weight_note: str = ""
 
 
@@ -465,7 +466,7 @@ def run_property(prop_mod: str, tier: str, seed: int, replay: str | None = None,
             for sh in range(nsh):
                 jobs.append(("enum", prop_mod, s.name, tier, sh, nsh, list(known)))
         else:
-            nsh = min(nsh, max(1, n // 50))
+            nsh = min(nsh, max(1, n // s.per_shard_min))
             per = math.ceil(n / nsh)
             for sh in range(nsh):
                 jobs.append(("given", prop_mod, s.name, tier, seed * 1000 + sh, per, list(known)))
